@@ -2,7 +2,7 @@
 from common import *
 from c26 import fld
 
-KINDS = ["gate2", "measure", "label", "jump", "jumpwhen"]
+KINDS = ["gate2", "measure", "rawcapture", "label", "jump", "jumpwhen"]
 LABELS = ["a_0", "a_1", "a", "b_0"]
 BASES = ["a", "b"]
 NPH = 2
@@ -27,7 +27,8 @@ def oracle(req, td, spec, before, after, custom=None, m=None):
     for (k, qs, t), a in zip(spec, after):
         p = a[1][0] if a[1] else None
         if qs:
-            got = fld(td, p, a[0], "qubits") if a[0] in ("Gate", "Fence") else [fld(td, p, "Measurement", "qubit")]
+            got = (fld(td, p, a[0], "qubits") if a[0] in ("Gate", "Fence") else
+                   fld(td, fld(td, p, "RawCapture", "frame"), "FrameIdentifier", "qubits") if a[0] == "RawCapture" else [fld(td, p, "Measurement", "qubit")])
             if not req("qubit-count", k, len(got) == len(qs)): continue
             for q, g in zip(qs, got):
                 if q[0] == "fixed":
@@ -102,7 +103,7 @@ class C34(Check):
         for i in range(n):
             k = m.choose([(x, None) for x in kinds])
             qs, t = [], None
-            arity = {"gate1": 1, "gate2": 2, "measure": 1, "fence": 2}.get(k, 0)
+            arity = {"gate1": 1, "gate2": 2, "measure": 1, "fence": 2, "rawcapture": 1}.get(k, 0)
             for j in range(arity):
                 c = m.choose([("fixed", None)] + [(("ph", p), None) for p in range(NPH)])
                 if c == "fixed":
@@ -132,6 +133,15 @@ class C34(Check):
                 for name, val in (("name", NONE()), ("qubit", mk_qubit(m, td, qs[0])), ("target", NONE())): g.fields[td.structs["Measurement"].index(name)] = val
             elif k == "fence":
                 ins = Agg("Instruction", td.enums["Instruction"].index("Fence"), [Agg("Fence", None, [VecObj([mk_qubit(m, td, q) for q in qs])])])
+            elif k == "rawcapture":
+                def st(sname, **kw):
+                    a = Agg(sname, None, [None] * len(td.structs[sname]))
+                    for kk, v in kw.items(): a.fields[td.structs[sname].index(kk)] = v
+                    return a
+                frame = st("FrameIdentifier", name=Str("rx"), qubits=VecObj([mk_qubit(m, td, q) for q in qs]))
+                num = Agg("Expression", td.enums["Expression"].index("Number"), [Agg("Complex", None, [1.0, 0.0])])
+                rc = st("RawCapture", blocking=True, frame=frame, duration=num, memory_reference=Agg("MemoryReference", None, [Str("ro"), 0]))
+                ins = Agg("Instruction", td.enums["Instruction"].index("RawCapture"), [rc])
             elif k == "label":
                 ins = Agg("Instruction", td.enums["Instruction"].index("Label"), [Agg("Label", None, [mk_target(m, td, t)])])
             elif k == "jump":
